@@ -33,6 +33,9 @@ struct Derived : Base {};
 }
 template class rkcommon::memory::IntrusivePtr<c08inst::Base>;
 template rkcommon::memory::IntrusivePtr<c08inst::Base>::IntrusivePtr(const rkcommon::memory::IntrusivePtr<c08inst::Derived> &);
+template bool rkcommon::memory::operator==<c08inst::Base>(const rkcommon::memory::IntrusivePtr<c08inst::Base> &, const rkcommon::memory::IntrusivePtr<c08inst::Base> &);
+template bool rkcommon::memory::operator!=<c08inst::Base>(const rkcommon::memory::IntrusivePtr<c08inst::Base> &, const rkcommon::memory::IntrusivePtr<c08inst::Base> &);
+template bool rkcommon::memory::operator< <c08inst::Base>(const rkcommon::memory::IntrusivePtr<c08inst::Base> &, const rkcommon::memory::IntrusivePtr<c08inst::Base> &);
 namespace c08inst { inline void use_default() { rkcommon::memory::IntrusivePtr<Base> x; (void)x; } }
 static_assert(std::is_same<rkcommon::memory::Ref<c08inst::Base>, rkcommon::memory::IntrusivePtr<c08inst::Base>>::value, "Ref alias");
 static_assert(std::is_same<rkcommon::memory::RefCount, rkcommon::memory::RefCountedObject>::value, "RefCount alias");
@@ -379,6 +382,74 @@ def rc_facts(docs):
     return f, info
 
 
+# ------------------------------------------------------------------ comparison operators, accessors
+CMPK = {"==": "KEq", "!=": "KNe", "<": "KLt", "<=": "KLe", ">": "KGt", ">=": "KGe"}
+
+
+def cexp(n, pa, pb):
+    """boolean expression over a.ptr / b.ptr -> Coq cexp text"""
+    n = strip(n)
+    k = n.get("kind")
+    if k == "UnaryOperator" and n.get("opcode") == "!":
+        return "(CNot %s)" % cexp(inner(n)[0], pa, pb)
+    if k == "BinaryOperator" and n.get("opcode") in CMPK:
+        sides = []
+        for x in inner(n):
+            x = strip(x)
+            side = None
+            if x.get("kind") == "MemberExpr" and x.get("name") == "ptr" and inner(x):
+                b = strip(inner(x)[0])
+                rid = b.get("referencedDecl", {}).get("id") if b.get("kind") == "DeclRefExpr" else None
+                side = "CA" if rid == pa else "CB" if rid == pb else None
+            sides.append(side)
+        if len(sides) == 2 and None not in sides:
+            return "(CCmp %s %s %s)" % (CMPK[n["opcode"]], sides[0], sides[1])
+    return "CUnk"
+
+
+def single_return(fn):
+    body = [c for c in inner(fn) if c.get("kind") == "CompoundStmt"]
+    if not body:
+        return None
+    ss = [s for s in stmts(body[0]) if strip(s).get("kind") != "NullStmt"]
+    if len(ss) != 1 or strip(ss[0]).get("kind") != "ReturnStmt" or not inner(strip(ss[0])):
+        return None
+    return inner(strip(ss[0]))[0]
+
+
+def cmp_facts(repo, work, spec):
+    out = {"c_eq": "CUnk", "c_ne": "CUnk", "c_lt": "CUnk", "a_bool": False, "a_arrow": False, "a_deref": False}
+    docs = dump(repo, work, "memory::operator")
+    key = {"operator==": "c_eq", "operator!=": "c_ne", "operator<": "c_lt"}
+    for d in docs:
+        if d.get("kind") != "FunctionTemplateDecl" or d.get("name") not in key:
+            continue
+        for f in inner(d):
+            if f.get("kind") != "FunctionDecl" or not any(x.get("kind") == "TemplateArgument" for x in inner(f)):
+                continue
+            ps = [p["id"] for p in inner(f) if p.get("kind") == "ParmVarDecl"]
+            if len(ps) != 2 or "IntrusivePtr" not in f.get("type", {}).get("qualType", ""):
+                continue
+            e = single_return(f)
+            if e is not None:
+                out[key[d["name"]]] = cexp(e, ps[0], ps[1])
+    cx = Ctx(set())
+    for c in inner(spec) if spec else []:
+        k, nm = c.get("kind"), c.get("name", "")
+        if k == "CXXConversionDecl" and nm == "operator bool":
+            e = single_return(c)
+            out["a_bool"] = e is not None and null_test(e, cx) == "PThis"
+        elif k == "CXXMethodDecl" and nm == "operator->":
+            e = single_return(c)
+            out["a_arrow"] = e is not None and pexp(e, cx) == "PThis"
+        elif k == "CXXMethodDecl" and nm == "operator*":
+            e = single_return(c)
+            if e is not None:
+                e = strip(e)
+                out["a_deref"] = e.get("kind") == "UnaryOperator" and e.get("opcode") == "*" and pexp(inner(e)[0], cx) == "PThis"
+    return out
+
+
 def extract(repo, work):
     docs = dump(repo, work, "IntrusivePtr")
     spec = [d for d in docs if d.get("kind") == "ClassTemplateSpecializationDecl" and d.get("name") == "IntrusivePtr"
@@ -407,10 +478,16 @@ def extract(repo, work):
             notes.append("%s: %r" % (m, ex))
     rdocs = dump(repo, work, "RefCountedObject")
     rc, info = rc_facts(rdocs)
+    try:
+        cmpf = cmp_facts(repo, work, spec[0] if spec else None)
+    except Exception as ex:
+        cmpf = {"c_eq": "CUnk", "c_ne": "CUnk", "c_lt": "CUnk", "a_bool": False, "a_arrow": False, "a_deref": False}
+        notes.append("comparison facts: %r" % (ex,))
+    info["cmp"] = cmpf
     return table, rc, info, notes
 
 
-def coq_text(table, rc):
+def coq_text(table, rc, cmpf=None):
     b = lambda x: "true" if x else "false"
     lines = ["(* GENERATED by props/C08/factgen.py from the working tree - do not edit, not under version control. *)",
              "From Coq Require Import List.", "From C08 Require Import Model.", "Import ListNotations.", "",
@@ -421,6 +498,10 @@ def coq_text(table, rc):
               "Definition gen_rc : rcfacts :=",
               "  mkRc %s %s %s %s %s %s %s." % tuple(b(rc[k]) for k in (
                   "rc_atomic", "rc_init_one", "rc_inc_single", "rc_dec_single", "rc_dec_own_result", "rc_dec_deletes", "rc_use_load")),
+              ""]
+    cmpf = cmpf or {"c_eq": "CUnk", "c_ne": "CUnk", "c_lt": "CUnk", "a_bool": False, "a_arrow": False, "a_deref": False}
+    lines += ["Definition gen_cmp : cmpfacts :=",
+              "  mkCmp %s %s %s %s %s %s." % (cmpf["c_eq"], cmpf["c_ne"], cmpf["c_lt"], b(cmpf["a_bool"]), b(cmpf["a_arrow"]), b(cmpf["a_deref"])),
               ""]
     return "\n".join(lines)
 
@@ -457,7 +538,7 @@ def main(argv):
         else:
             i += 1
     table, rc, info, notes = extract(repo, work)
-    txt = coq_text(table, rc)
+    txt = coq_text(table, rc, info.get("cmp"))
     if out:
         os.makedirs(os.path.dirname(os.path.abspath(out)), exist_ok=True)
         if not os.path.exists(out) or open(out).read() != txt:
